@@ -58,7 +58,23 @@ impl Handler for Server {
     }
 
     fn on_message(&mut self, msg: Message) -> ws::Result<()> {
-        let message = msg.as_text().unwrap();
+        let message = match msg.as_text() {
+            Ok(message) => message,
+            Err(e) => {
+                // A binary frame that is not valid UTF-8 is not a command, refuse it instead of
+                // unwinding the thread that serves every WebSocket connection
+                log::debug!("ws_ops::on_message::invalid message {}", e);
+                match self
+                    .client
+                    .sender
+                    .try_send(format!("error invalid-message \n"))
+                {
+                    Ok(_) => {}
+                    Err(e) => log::warn!("ws_ops::on_message::try_send::Error {}", e),
+                }
+                return Ok(());
+            }
+        };
         log::debug!(
             "[{}] Server got message '{}'. ",
             thread_id::get(),
